@@ -35,6 +35,16 @@ PL = 'pwl_calibration_layer'
 
 
 def run(prog, res):
+  from ..rules import dtypes
+  dtypes.selfcheck()
+  regs = [prog.function(q) for q in (
+      'lattice_lib.laplacian_regularizer', 'lattice_lib.torsion_regularizer',
+      'pwl_calibration_layer.LaplacianRegularizer.__call__',
+      'pwl_calibration_layer.HessianRegularizer.__call__',
+      'pwl_calibration_layer.WrinkleRegularizer.__call__')]
+  dtypes.check_tensor_returns(prog, res, regs)
+  dtypes.check_functions(prog, res, regs)
+  res.floor('D1', 5)
   from ..rules import seqkind
   seqkind.selfcheck()
   for q in ('lattice_lib.laplacian_regularizer', 'lattice_lib.torsion_regularizer'):
